@@ -31,7 +31,10 @@ def run(ctx):
     ]
     ctx.run_shards(exe, ["--mode", "ops"], 5000 if q else 100000, label="ops")
     ctx.run_shards(exe, ["--mode", "files"], 1200 if q else 24000, label="files")
+    list_part(ctx, 150 if q else 3000)
     c = ctx.counters
+    ctx.require("xz_list_files", c.get("xz_list_files", 0), 100)
+    ctx.require("xz_list_blocks_compared", c.get("xz_list_blocks_compared", 0), 300)
     ctx.require("cat_ops", c.get("cat_ops", 0), 1000)
     ctx.require("dup_ops", c.get("dup_ops", 0), 1000)
     ctx.require("limit_failures", c.get("limit_failures", 0), 500)
@@ -41,3 +44,123 @@ def run(ctx):
     ctx.require("files_multi_stream", c.get("files_multi_stream", 0), 100)
     ctx.require("file_info_seeks", c.get("file_info_seeks", 0), 1000)
     ctx.require("random_access_blocks_verified", c.get("random_access_blocks_verified", 0), 1000)
+
+
+def list_part(ctx, nfiles):
+    """xz --list must report the figures of an independent parse of the same file (lib/models/xzparse.py)."""
+    import os, random, subprocess, sys, concurrent.futures
+    sys.path.insert(0, os.path.join(build.VERIF, "lib"))
+    from models import xzparse
+    xz = os.path.join(build.build_flavour("rel"), "xz")
+    d = os.path.join(ctx.scratch, "list")
+    os.makedirs(d, exist_ok=True)
+    env = {"PATH": os.environ.get("PATH", ""), "LC_ALL": "C"}
+
+    def one(i):
+        rng = random.Random((ctx.seed << 20) ^ i ^ 0xC13)
+        nstreams = rng.choice([1, 1, 1, 2, 3, 4])
+        data = b""
+        desc = []
+        for s in range(nstreams):
+            n = rng.choice([0, 1, 100, 5000, 70000, rng.randrange(0, 300000)])
+            kind = rng.random()
+            plain = (os.urandom(n) if kind < 0.3 else (b"abcdefgh" * (n // 8 + 1))[:n] if kind < 0.6 else
+                     bytes(rng.randrange(97, 105) for _ in range(min(n, 20000))) * (n // 20000 + 1))[:n]
+            args = [xz, "-c", "-T%d" % rng.choice([1, 1, 2, 4]), "-%d" % rng.choice([0, 1, 2])]
+            chk = rng.choice(["none", "crc32", "crc64", "sha256"])
+            args += ["-C", chk]
+            if rng.random() < 0.6:
+                args += ["--block-size=%d" % rng.choice([4096, 10000, 65536, 100000])]
+            elif rng.random() < 0.5 and n > 10:
+                a = rng.randrange(1, n)
+                args += ["--block-list=%d,%d" % (a, max(1, (n - a) // 2))]
+            r = subprocess.run(args, input=plain, stdout=subprocess.PIPE, stderr=subprocess.PIPE, env=env)
+            if r.returncode != 0:
+                return ("skip", i, "xz failed: %s" % r.stderr[:200])
+            data += r.stdout
+            pad = 4 * rng.choice([0, 0, 1, 2, 7]) if (s + 1 < nstreams or rng.random() < 0.3) else 0
+            data += b"\0" * pad
+            desc.append("%dB/%s/pad%d %s" % (n, chk, pad, " ".join(args[2:])))
+        path = os.path.join(d, "f%d.xz" % i)
+        with open(path, "wb") as f:
+            f.write(data)
+        r = subprocess.run([xz, "--robot", "--list", "-vv", path], stdout=subprocess.PIPE, stderr=subprocess.PIPE, env=env)
+        os.unlink(path)
+        if r.returncode != 0:
+            return ("viol", i, "xz-list-fails-on-valid-file", "xz --list exit %d: %s; %s" % (r.returncode, r.stderr[:200], desc))
+        try:
+            model = xzparse.parse(data)
+        except Exception as e:  # the independent parser must handle xz's own output
+            return ("skip", i, "model parse failed: %r" % (e,))
+        lines = [ln.split("\t") for ln in r.stdout.decode().splitlines()]
+        nblocks = 0
+        problems = []
+        tot = [ln for ln in lines if ln[0] == "file"]
+        mstreams = len(model)
+        mblocks = sum(len(s["blocks"]) for s in model)
+        mcomp = len(data) - sum(0 for _ in [0])
+        muncomp = sum(s["uncomp"] for s in model)
+        mpad = sum(s["padding"] for s in model)
+        if not tot:
+            problems.append("no file line")
+        else:
+            t = tot[0]
+            got = (int(t[1]), int(t[2]), int(t[3]), int(t[4]), int(t[7]))
+            want = (mstreams, mblocks, len(data), muncomp, mpad)
+            if got != want:
+                problems.append("file line %s != model %s" % (got, want))
+            names = set(t[6].split(","))
+            wantn = set(xzparse.CHECK_NAME.get(s["check"], "Unknown-%d" % s["check"]) for s in model)
+            if names != wantn:
+                problems.append("checks %s != model %s" % (sorted(names), sorted(wantn)))
+        sl = [ln for ln in lines if ln[0] == "stream"]
+        if len(sl) != mstreams:
+            problems.append("%d stream lines, model %d" % (len(sl), mstreams))
+        else:
+            uo = 0
+            for ln, ms in zip(sl, model):
+                got = (int(ln[2]), int(ln[3]), int(ln[4]), int(ln[5]), int(ln[6]), int(ln[9]))
+                want = (len(ms["blocks"]), ms["offset"], uo, ms["size"], ms["uncomp"], ms["padding"])
+                if got != want:
+                    problems.append("stream %s: %s != model %s" % (ln[1], got, want))
+                uo += ms["uncomp"]
+        bl = [ln for ln in lines if ln[0] == "block"]
+        mb = [(si + 1, bi + 1, b, ms) for si, ms in enumerate(model) for bi, b in enumerate(ms["blocks"])]
+        if len(bl) != len(mb):
+            problems.append("%d block lines, model %d" % (len(bl), len(mb)))
+        else:
+            ubase = {}
+            acc = 0
+            for si, ms in enumerate(model):
+                ubase[si + 1] = acc
+                acc += ms["uncomp"]
+            for k, (ln, (sn, bn, b, ms)) in enumerate(zip(bl, mb)):
+                got = (int(ln[1]), int(ln[2]), int(ln[3]), int(ln[4]), int(ln[5]), int(ln[6]), int(ln[7]), ln[10], int(ln[11]), int(ln[13]))
+                want = (sn, bn, k + 1, b["coffset"], ubase[sn] + b["uoffset"], b["total"], b["uncomp"],
+                        # xz prints CRC32/CRC64 as an integer (stored little endian), other checks as the raw bytes
+                        ((b["check_value"][::-1] if ms["check"] in (1, 4) else b["check_value"]).hex() or "---"), b["header"], b["comp_data"])
+                if got != want:
+                    problems.append("block %d: %s != model %s" % (k + 1, got, want))
+                    break
+                nblocks += 1
+        if problems:
+            return ("viol", i, "xz-list-differs-from-file", "; ".join(problems[:3]) + "; file: " + " | ".join(desc))
+        return ("ok", i, nblocks, mstreams, " | ".join(desc))
+
+    with concurrent.futures.ThreadPoolExecutor(max_workers=16) as ex:
+        for res in ex.map(one, range(nfiles)):
+            ctx.evaluations += 1
+            if res[0] == "viol":
+                ctx.violation(res[2], res[3], {"how": "VERIF_SEED=%d file index %d: %s" % (ctx.seed, res[1], res[3])})
+            elif res[0] == "skip":
+                ctx.count("xz_list_skipped")
+                if len(ctx.notes) < 10:
+                    ctx.notes.append(res[2])
+            else:
+                ctx.count("xz_list_files")
+                ctx.count("xz_list_blocks_compared", res[2])
+                if res[3] > 1:
+                    ctx.count("xz_list_multi_stream")
+                ctx.add_hash(hash((res[1], res[4])) & 0xFFFFFFFFFFFFFFFF)
+                if len(ctx.samples) < 12 and res[1] < 3:
+                    ctx.samples.append("xz --list: " + res[4])
